@@ -165,7 +165,161 @@ def correspondences(tier, rng):
     return out
 
 def sweeps(tier, rng):
-    return []
+    """implementation-side round-trip oracles for every codec named by the property (testing, not proof)"""
+    from fontTools.misc.fixedTools import fixedToStr, strToFixed, floatToFixed, fixedToFloat, floatToFixedToStr, strToFixedToFloat
+    from fontTools.misc import psCharStrings as ps, sstruct, iftSparseBitSet as SBS
+    from fontTools.misc.timeTools import timestampToString, timestampFromString
+    from fontTools.ttLib.tables.TupleVariation import TupleVariation as TV
+    from fontTools.ttLib.ttFont import tagToIdentifier, identifierToTag, tagToXML, xmlToTag
+    from fontTools.misc.textTools import num2binary, binary2num, hexStr, deHexStr
+    from fontTools import agl
+    n = N(tier, 1500, 60000) if tier != "search" else 5000
+    def fixed_text():
+        vals = list(range(-32768, 32768)) if tier != "quick" else [rng.randint(-32768, 32767) for _ in range(n)] + [-32768, 32767, 0, 1, -1, 16384, -16384]
+        for v in vals:
+            s_ = fixedToStr(v, 14)
+            ok = strToFixed(s_, 14) == v and floatToFixed(fixedToFloat(v, 14), 14) == v
+            yield (("f2dot14", v), None if ok else "strToFixed(fixedToStr(%d,14)) = %r via %r" % (v, strToFixed(s_, 14), s_))
+        for _ in range(n):
+            v = rng.choice([rng.randint(-2**31, 2**31 - 1), rng.randint(-70000, 70000), rng.near([0, 2**31 - 1, -2**31 + 2, 65536, 32768], 2)])
+            v = max(-2**31, min(2**31 - 1, v))
+            s_ = fixedToStr(v, 16)
+            ok = strToFixed(s_, 16) == v and floatToFixed(fixedToFloat(v, 16), 16) == v and floatToFixedToStr(v / 65536, 16) == s_
+            yield (("fixed16.16", v), None if ok else "strToFixed(fixedToStr(%d,16)) = %r via %r" % (v, strToFixed(s_, 16), s_))
+    def reals():
+        def rt(f):
+            d = ps.encodeFloat(f); v, idx = ps.read_realNumber(None, 30, d, 1)
+            return v, idx == len(d)
+        tests = [1e-05, 123000.0, 0.5, -0.05, 1.0, 100.0, 1e10, 1.5e10, 12345678.0, 123456789.0, 1e-10, -1e-10, 0.00012345678,
+                 1234.5678, 1e100, 1e-100, 99999999.0, 0.1, 1 / 3, 1e8, 1e7, 1.2345678e7, -123000.0, 5e-324, 1.7976931348623157e308,
+                 1000.0, 120.0, 10.0, 0.0, -0.0, 0.001, 0.0001, -0.001, 100000.0, 1000000.0, 0.05, 5e-05, 1e-4, 9.9999999e-5]
+        for _ in range(n):
+            k = rng.below(3)
+            m = rng.randint(-10**8, 10**8)
+            tests.append(m / 10**rng.randint(0, 12) if k == 0 else m * 10.0**rng.randint(-20, 20) if k == 1 else float(rng.randint(-10**6, 10**6)) * 1000)
+        for f in tests:
+            try:
+                r, whole = rt(f); exp = float("%.8G" % f)
+                bad = None if (r == exp and whole) else "encodeFloat(%r) decodes to %r, expected %r" % (f, r, exp)
+            except Exception as e:
+                bad = "encodeFloat(%r) raised %r" % (f, e)
+            yield (("real", f), bad)
+    def deltas_points():
+        for _ in range(n):
+            ln = rng.choice([0, 1, 2, 63, 64, 65, 127, 128, 129, 200, 300])
+            ds = []
+            while len(ds) < ln:
+                kind = rng.choice("zbwl"); run = rng.choice([1, 1, 2, 3, 63, 64, 65])
+                for _ in range(run):
+                    ds.append({"z": 0, "b": rng.randint(-128, 127), "w": rng.choice([-32768, 32767, 128, -129, rng.randint(-32768, 32767)]),
+                               "l": rng.choice([32768, -32769, 2**31 - 1, -2**31, rng.randint(-2**31, 2**31 - 1)])}[kind])
+            ds = ds[:ln]
+            for opt in (True, False):
+                if not ds and not opt: continue     # callers never pass an empty list with optimizeSize=False
+                try:
+                    b = TV.compileDeltaValues_(ds, optimizeSize=opt); r, pos = TV.decompileDeltas_(len(ds), bytes(b), 0)
+                    bad = None if (list(r) == ds and pos == len(b)) else "deltas do not round-trip: %r -> %r" % (ds[:8], list(r)[:8])
+                except Exception as e:
+                    bad = "deltas raised %r on %r" % (e, ds[:8])
+                yield (("deltas", ds[:40], opt), bad)
+        for _ in range(n):
+            k = rng.choice([1, 2, 3, 127, 128, 129, 130, 255, 256, 300])
+            top = rng.choice([300, 65536])
+            pts = sorted(rng.sample(range(0, top), min(k, 299)))
+            try:
+                b = TV.compilePoints(pts); r, pos = TV.decompilePoints_(70000, bytes(b), 0, "gvar")
+                bad = None if (list(r) == pts and pos == len(b)) else "points do not round-trip: %r -> %r" % (pts[:8], list(r)[:8])
+            except Exception as e:
+                bad = "points raised %r" % (e,)
+            yield (("points", pts[:40]), bad)
+    def misc_codecs():
+        for _ in range(n):
+            mx = rng.choice([1, 7, 8, 9, 31, 32, 33, 63, 64, 255, 256, 257, 1023, 4096, 70000, 2**20, 2**31])
+            vals = set(rng.below(mx + 1) for _ in range(rng.randint(0, 60)))
+            if rng.chance(30) and mx < 5000: vals |= set(range(rng.below(mx + 1), mx + 1))
+            try:
+                e = SBS.encode(vals); d, k = SBS.decode(e)
+                bad = None if (d == vals and k == len(e)) else "sparse bit set does not round-trip"
+            except Exception as ex:
+                bad = "sparse bit set raised %r" % (ex,)
+            yield (("sparsebitset", sorted(vals)[:20]), bad)
+        for t in [2082844800, 2082844801, 3000000000, 4294967295, 2**32, 2082844800 + 86400 * 366] + [rng.randint(2082844800, 2**33) for _ in range(n)]:
+            try:
+                bad = None if timestampFromString(timestampToString(t)) == t else "timestamp %d does not round-trip" % t
+            except Exception as ex:
+                bad = "timestamp %d raised %r" % (t, ex)
+            yield (("timestamp", t), bad)
+        alphabet = [chr(c) for c in range(0x20, 0x7F)]
+        for _ in range(n):
+            k = rng.below(3)
+            tag = "".join(rng.choice(alphabet if k else list("abcXYZ019_ /-.")) for _ in range(4))
+            try:
+                bad = None if identifierToTag(tagToIdentifier(tag)) == tag else "identifierToTag(tagToIdentifier(%r)) = %r" % (tag, identifierToTag(tagToIdentifier(tag)))
+            except Exception as ex:
+                bad = "tag %r raised %r" % (tag, ex)
+            yield (("tag-ident", tag), bad)
+            try:
+                bad = None if xmlToTag(tagToXML(tag)) == tag else "xmlToTag(tagToXML(%r)) = %r" % (tag, xmlToTag(tagToXML(tag)))
+            except Exception as ex:
+                bad = "tagxml %r raised %r" % (tag, ex)
+            yield (("tag-xml", tag), bad)
+        for u, name in sorted(agl.UV2AGL.items()):
+            yield (("agl", u), None if agl.toUnicode(name) == chr(u) else "agl.toUnicode(%r) != U+%04X" % (name, u))
+        for _ in range(n // 4):
+            bits = rng.choice([8, 16, 32, 40]); v = rng.randint(0, 2**bits - 1)
+            s_ = num2binary(v, bits)
+            yield (("num2binary", v), None if binary2num(s_) == v else "binary2num(num2binary(%d)) != itself" % v)
+            d = rng.bytes(rng.randint(0, 20))
+            yield (("hexStr", d), None if deHexStr(hexStr(d)) == d else "deHexStr(hexStr(x)) != x")
+    def sstruct_formats():
+        import re, fontTools, os, ast
+        # every format string in the library: pack(unpack(bytes)) == bytes and unpack(pack(values)) == values
+        lib = os.path.dirname(fontTools.__file__)
+        fmts = {}
+        for root, _, files in os.walk(lib):
+            for fn in files:
+                if not fn.endswith(".py"): continue
+                try: tree = ast.parse(open(os.path.join(root, fn), encoding="utf-8").read())
+                except Exception: continue
+                for node in tree.body:
+                    if isinstance(node, ast.Assign) and isinstance(node.value, ast.Constant) and isinstance(node.value.value, str):
+                        v = node.value.value
+                        if re.search(r"^\s*[<>]", v) and ":" in v and "\n" in v:
+                            fmts[fn + ":" + node.targets[0].id] = v
+        for key, fmt in sorted(fmts.items()):
+            try:
+                size = sstruct.calcsize(fmt)
+            except Exception:
+                continue
+            for _ in range(8 if tier == "quick" else 60):
+                data = rng.bytes(size)
+                try:
+                    d = sstruct.unpack(fmt, data)
+                    back = sstruct.pack(fmt, d)
+                    d2 = sstruct.unpack(fmt, back)
+                    # float ('f','d') fields may hold NaN payloads; compare second generation
+                    bad = None if (back == data or sstruct.pack(fmt, d2) == back) and len(back) == size else "sstruct %s: pack(unpack(b)) != b" % key
+                    if bad is None and any(c in fmt for c in ("F", )):
+                        pass
+                except Exception as ex:
+                    bad = "sstruct %s raised %r" % (key, ex)
+                yield (("sstruct", key), bad)
+    return [Sweep("fixed-text", fixed_text), Sweep("cff-reals", reals), Sweep("gvar-deltas-points", deltas_points),
+            Sweep("misc-codecs", misc_codecs), Sweep("sstruct", sstruct_formats)]
+
+def _f9_pattern(tag):
+    import re
+    from fontTools.ttLib.ttFont import tagToIdentifier
+    if tag == "OS_2": return True
+    return (not re.match("[A-Za-z_][A-Za-z_0-9]* *$", tag)) and len(tagToIdentifier(tag)) != 8
+
+def classify(sweep, case, failure):
+    if sweep == "misc-codecs" and isinstance(case, tuple) and case[0] == "tag-xml" and _f9_pattern(case[1]):
+        return "F9"
+    return None
 
 def witness(fid):
+    from fontTools.ttLib.ttFont import tagToXML, xmlToTag
+    if fid == "F9":
+        return xmlToTag(tagToXML("1abc")) != "1abc"
     return None
